@@ -765,3 +765,15 @@ class PairList(PList):
         if isinstance(idx, slice):
             raise Unsupported("slice of the child results")
         return self.get(models.norm_index(eng, idx, self.n, "list index"))
+
+
+# ---------------------------------------------------------------------------------------------------------------
+# np.nonzero of a CONCRETE 1-D mask (fixed-topology variants of BranchTree.from_tree): the positions of the true entries in order;
+# the model is the one of pyvc.ext_C10 (it falls back to the stock symbolic model for every other argument)
+def _np_nonzero(eng, args, kwargs):
+    from .ext_C10 import _nonzero
+
+    return _nonzero(eng, args, kwargs)
+
+
+models.EXTRA_MODELS[np.nonzero] = _np_nonzero
